@@ -1,6 +1,7 @@
 package main
 
 import (
+	"bytes"
 	"encoding/json"
 	"fmt"
 	"net/url"
@@ -632,4 +633,78 @@ func c11Listing(r *lp.Run) {
 			}
 		}
 	}
+}
+
+// location.Lines (Collect + Line) against the Lean model LinesM (driver tag lline), and against a reference on the
+// implementation itself: for every line number of the document the slice data[start:end] does not panic and,
+// trimmed as PrintHighlights trims it, is the n-th piece of bytes.Split(data, "\n") trimmed the same way
+func c11Lines(r *lp.Run, rng *lp.Rand) {
+	one := func(data []byte) {
+		var l location.Lines
+		nl := bytes.Count(data, []byte("\n"))
+		for n := -1; n <= nl+3; n++ {
+			var s, e int
+			out := lp.Guard(func() string {
+				l.Collect(data)
+				s, e = l.Line(n)
+				if s >= 0 && e >= 0 {
+					_ = data[s:e]
+				}
+				return fmt.Sprintf("%d %d", s, e)
+			})
+			bs := "-"
+			if len(data) > 0 {
+				parts := make([]string, len(data))
+				for i, b := range data {
+					parts[i] = fmt.Sprint(int(b))
+				}
+				bs = strings.Join(parts, ",")
+			}
+			kind := "valid"
+			switch {
+			case n < 1:
+				kind = "invalid"
+			case n > nl+1:
+				kind = "past-end"
+			case n == nl+1:
+				kind = "last"
+			}
+			r.Case("lline", fmt.Sprintf("%d %s", n, bs), out, "lline:"+kind, kind == "valid" && nl >= 2)
+			r.PropCheck()
+			in := map[string]any{"data": string(data), "line": n}
+			if strings.Contains(out, "panic") {
+				r.Fail(lp.PropFail{Property: "C11", What: "location.Lines panics (or yields a range that cannot be sliced)", Input: in, Observed: out, Expected: "a range inside the document"})
+				continue
+			}
+			if n >= 1 && n <= nl+1 {
+				got := bytes.Trim(data[s:e], "\r\n")
+				want := bytes.Trim(bytes.Split(data, []byte("\n"))[n-1], "\r\n")
+				if !bytes.Equal(got, want) {
+					r.Fail(lp.PropFail{Property: "C11", What: "the listing shows another text than the line it numbers", Input: in, Observed: fmt.Sprintf("[%d:%d] = %q", s, e, got), Expected: fmt.Sprintf("%q", want)})
+				}
+			}
+		}
+	}
+	// every document of at most 6 bytes over {a, \n, \r}
+	alpha := []byte{'a', '\n', '\r'}
+	var rec func(prefix []byte, depth int)
+	rec = func(prefix []byte, depth int) {
+		one(prefix)
+		if depth == 0 {
+			return
+		}
+		for _, c := range alpha {
+			rec(append(append([]byte{}, prefix...), c), depth-1)
+		}
+	}
+	rec(nil, r.N(5, 7))
+	for i := 0; i < r.N(400, 6000); i++ {
+		n := rng.Intn(40)
+		data := make([]byte, n)
+		for k := range data {
+			data[k] = lp.Pick(rng, []byte{'a', 'b', ' ', '\n', '\n', '\r', ':', 0xc3})
+		}
+		one(data)
+	}
+	r.Exhaustive("location.Lines", "every document of at most 5 (quick) / 7 (thorough) bytes over {a, LF, CR} × every line number from -1 to count+3")
 }
